@@ -21,7 +21,7 @@ LEVEL_TEXT = ("Seeded exploration: the four sort functions are observed on every
               "every rule on live lists; the allocation result is checked against the priority order.")
 LEVEL_NOTE = "Trusted: independent key functions in this module; sampling evidence only."
 PROBES = ["sort_calls_observed", "sort_calls_nontrivial", "director_sort_calls", "mw_match_exists", "hsv_missing_skill",
-          "tie_in_keys", "contention_step", "new_alloc_checked", "json_restart_sorts", "backward_runs", "task_rule_of_sort_checked"]
+          "tie_in_keys", "contention_step", "new_alloc_checked", "json_restart_sorts", "backward_runs", "task_rule_of_sort_checked", "worker_rule_candidate_checked"]
 
 TASK_RULES = ["TSLACK", "EST", "SPT", "LPT", "FIFO", "LRPT", "SRPT", "LWRPT", "SWRPT"]
 RES_RULES = {-1: "MW", 0: "SSP", 1: "VC", 2: "HSV"}
@@ -295,6 +295,30 @@ def run(spec):
             if len([t for t in open_tasks if not st.auto(t)]) > len(free_before) > 0:
                 contention = True
                 res.count("contention_step")
+            # (c) the task's own worker rule: a task that had no worker and was given some must have been given the candidate
+            # that its worker_priority_rule ranks strictly before every worker it got (the first candidate is never passed over)
+            for T_ in open_tasks:
+                if st.auto(T_) or st.nf(T_) or UT[T_][2] or not AT[T_][2]:
+                    continue
+                got_ws = [w for w in AT[T_][2] if w in st.worker]
+                if len(got_ws) != len(AT[T_][2]):
+                    continue
+                wr = st.tasks[T_].get("wrule")
+                wr = -1 if wr is None else wr
+                nm = st.name(T_)
+                keys_got = [resource_key(wr, tr.ix.worker[w], nm, None, True) for w in got_ws if w in tr.ix.worker]
+                if len(keys_got) != len(got_ws) or any(k_ is None for k_ in keys_got):
+                    continue
+                for c1 in free_before:
+                    if c1 in got_ws or A["W"][c1][1] or A["W"][c1][0] != D.FREE or not st.eligible_w(c1, T_) or c1 not in tr.ix.worker:
+                        continue
+                    kc = resource_key(wr, tr.ix.worker[c1], nm, None, True)
+                    res.count("worker_rule_candidate_checked")
+                    if kc is not None and all(kc < kg for kg in keys_got):
+                        res.add("worker_rule", "C11.worker_rule_inverted.%s" % RES_RULES.get(wr, wr),
+                                "step %d: task %s (worker rule %s, no worker before) was given %s although the free eligible worker %s ranks "
+                                "strictly first (key %r vs %r) and stayed FREE" % (k, T_, RES_RULES.get(wr, wr), got_ws, c1, kc, keys_got), k)
+                        break
             for L in open_tasks:
                 if st.auto(L):
                     continue
